@@ -525,7 +525,7 @@ class Interp:
                     state.cons[a.sid] = (max(lo, min(vals)), min(hi, max(vals)))
         return True
 
-    def install_guard(self, state, g):
+    def install_guard(self, state, g, narrowed=False):
         if not g:
             return True
         for s, (lo, hi) in g.get("cons", {}).items():
@@ -541,7 +541,7 @@ class Interp:
             state.kb[b] = v
         if g.get("pc"):
             state.pc = state.pc | g["pc"]
-        if g.get("deps") and self._cur is not None:
+        if narrowed and g.get("deps") and self._cur is not None:
             # being in this variant is itself a control dependence on whatever decided it
             d = frozenset(x[1] if (isinstance(x, tuple) and len(x) == 2 and x[0] == "ctl") else x for x in g["deps"])
             state.ctl[self._cur] = (state.ctl.get(self._cur, (frozenset(), None))[0] | d, state.ctl.get(self._cur, (None, None))[1])
@@ -1363,13 +1363,13 @@ class Interp:
             n = order[value]
             nv = EnumV(v.adt, {n: v.variants[n]})
             self.set_path(state, cell, path, nv)
-            return self.install_guard(state, v.variants[n][1])
+            return self.install_guard(state, v.variants[n][1], narrowed=len(v.variants) > 1)
         keep = {n: pv for n, pv in v.variants.items() if n in order and order.index(n) not in (exclude or ())}
         if not keep:
             return False
         self.set_path(state, cell, path, EnumV(v.adt, keep))
         if len(keep) == 1:
-            return self.install_guard(state, list(keep.values())[0][1])
+            return self.install_guard(state, list(keep.values())[0][1], narrowed=len(v.variants) > 1)
         return True
 
     # ------------------------------------------------------------------ obligations / events
